@@ -254,6 +254,13 @@ def _sig(toks, a, b):
     return [i for i in range(a, b) if toks[i].kind not in ("ws", "comment", "doc")]
 
 
+def _code_text(toks, a, b):
+    """the code between two token indices without comments, doc comments and layout"""
+    sg = [t.text for t in toks[a:b] if t.kind not in ("ws", "comment", "doc")]
+    # a trailing comma in front of a closing bracket is layout (rustfmt adds it when it breaks a list over several lines)
+    return " ".join(x for k, x in enumerate(sg) if not (x == "," and k + 1 < len(sg) and sg[k + 1] in (")", "]", "}")))
+
+
 def _seq_at(toks, sg, k, words):
     if k + len(words) > len(sg):
         return False
@@ -1159,6 +1166,7 @@ class Unit:
         self.bare_closures = {}   # fn -> closures left without a contract (non-trivial bodies)
         self.bare_loops = {}      # fn -> number of loops without a template invariant
         self.callees = {}         # fn -> names called in the body (as written in /repo)
+        self.trusted_text = {}    # "<file>: <qualified fn>" -> text of a function whose contract is ASSUMED here (//@assume) or that is only watched (//@watch)
         self.lost_required = {}   # fn -> required before/after anchors that found no statement
         self.lost_optional = {}   # fn -> optional before?/after? anchors that found no statement (their hints are missing)
         self.item_text = {}       # `kw Name` -> normalised text of every type definition the unit extracts
@@ -1191,6 +1199,23 @@ class Unit:
                 i += 1
             elif cmd == "item":
                 self._item(d[1], d[2], d[3])
+                i += 1
+            elif cmd == "watch":
+                # //@watch <file> "<substring of impl header>"|- <fn>: code the unit's claims rely on but that is outside the verifier
+                # (formatting through core::fmt, OS wrappers): nothing is emitted, its text is pinned to the reference tree
+                m = re.match(r'//@watch\s+(\S+)\s+(?:"([^"]+)"|-)\s+(\w+)', s)
+                if not m:
+                    raise Undecided("bad //@watch at %s:%d" % (relname, i + 1))
+                rf = RepoFile.get(m.group(1))
+                cands = []
+                if m.group(2) is None:
+                    cands = [f for f in rf.items if f["kw"] == "fn" and f["name"] == m.group(3)]
+                else:
+                    for it in rf.items:
+                        if it["kw"] == "impl" and it["body_open"] is not None and m.group(2) in L.impl_header(rf.toks, it):
+                            cands += [f for f in rf.fns_in(it) if f["kw"] == "fn" and f["name"] == m.group(3)]
+                key = "%s: %s%s" % (m.group(1), (m.group(2) + "::") if m.group(2) else "", m.group(3))
+                self.trusted_text[key] = _code_text(rf.toks, cands[0]["start"], cands[0]["end"]) if len(cands) == 1 else "<absent or ambiguous>"
                 i += 1
             elif cmd == "lift":
                 # //@lift <file> <enclosing fn> ~closure selector~ <virtual file name> <signature of the new function>
@@ -2005,6 +2030,7 @@ class Unit:
             edits = [e for e in edits if e.b <= bo]
             edits.append(Edit(bo, be + 1, "{ unimplemented!() }", ("gen", "assume")))
             self.assumed.append("%s (%s:%d): body not verified in this unit, contract assumed" % (qual, rf.rel, toks[it["kw_idx"]].line))
+            self.trusted_text["%s: %s" % (rf.rel, qual)] = _code_text(toks, start, it["end"])
             self.out.nl()
             self.out.emit("#[verifier::external_body]\n", ("gen", "assume"))
             render(self.out, rf, start, it["end"], edits)
